@@ -165,22 +165,26 @@ func rulesC10(c *Ctx) {
 		fk := c.P.FuncKey(f)
 		proof, A := "P:"+f.Params[0].Name(), "P:"+f.Params[1].Name()
 		parse := "cashu/nuts/nut12.ParseDLEQ"
-		for _, ci := range Calls(f) {
-			d := c.P.Describe(ci)
-			switch d.Name {
-			case "crypto.BlindMessage":
-				a0, a1 := o.Of(d.Args[0]), o.Of(d.Args[1])
-				ok := a0.String() == proof+".Secret" && isCall(a1, parse) && a1.Idx == 2 && strings.Contains(arg(a1, 0).String(), proof+".DLEQ")
-				R.Check("R5", fk, "re-blinds the proof's own secret with the proof's own r", c.P.InstrPos(ci), ok, "B_ is recomputed from the proof's secret and the r in its DLEQ", short(a0.String()+" / "+a1.String(), 160))
-			case "crypto.VerifyDLEQ":
-				e, s, a, b := o.Of(d.Args[0]), o.Of(d.Args[1]), o.Of(d.Args[2]), o.Of(d.Args[3])
-				ok := isCall(e, parse) && e.Idx == 0 && isCall(s, parse) && s.Idx == 1 && a.String() == A && isCall(b, "crypto.BlindMessage") && b.Idx == 0
-				R.Check("R5", fk, "VerifyDLEQ(e, s, A, recomputed B_, recomputed C_)", c.P.InstrPos(ci), ok, "the DLEQ is checked with e, s in their places, the given key and the recomputed B_", short(e.String()+" / "+s.String()+" / "+a.String(), 200))
-			case "secp256k1.ScalarMultNonConst":
-				// r*A
-				k := o.Of(d.Args[0])
-				ok := strings.Contains(k.String(), parse+"#2(") && strings.HasSuffix(k.String(), ".Key")
-				R.Check("R5", fk, "C_ recomputed as C + r*A", c.P.InstrPos(ci), ok, "the blinded signature is recomputed with the proof's r", short(k.String(), 120))
+		_ = o
+		for _, og := range c.OpContexts(f) {
+			o := og
+			for _, ci := range Calls(og.Fn) {
+				d := c.P.Describe(ci)
+				switch d.Name {
+				case "crypto.BlindMessage":
+					a0, a1 := o.Of(d.Args[0]), o.Of(d.Args[1])
+					ok := a0.String() == proof+".Secret" && isCall(a1, parse) && a1.Idx == 2 && strings.Contains(arg(a1, 0).String(), proof+".DLEQ")
+					R.Check("R5", fk, "re-blinds the proof's own secret with the proof's own r", c.P.InstrPos(ci), ok, "B_ is recomputed from the proof's secret and the r in its DLEQ", short(a0.String()+" / "+a1.String(), 160))
+				case "crypto.VerifyDLEQ":
+					e, s, a, b := o.Of(d.Args[0]), o.Of(d.Args[1]), o.Of(d.Args[2]), o.Of(d.Args[3])
+					ok := isCall(e, parse) && e.Idx == 0 && isCall(s, parse) && s.Idx == 1 && a.String() == A && isCall(b, "crypto.BlindMessage") && b.Idx == 0
+					R.Check("R5", fk, "VerifyDLEQ(e, s, A, recomputed B_, recomputed C_)", c.P.InstrPos(ci), ok, "the DLEQ is checked with e, s in their places, the given key and the recomputed B_", short(e.String()+" / "+s.String()+" / "+a.String(), 200))
+				case "secp256k1.ScalarMultNonConst":
+					// r*A
+					k := o.Of(d.Args[0])
+					ok := strings.Contains(k.String(), parse+"#2(") && strings.HasSuffix(k.String(), ".Key")
+					R.Check("R5", fk, "C_ recomputed as C + r*A", c.P.InstrPos(ci), ok, "the blinded signature is recomputed with the proof's r", short(k.String(), 120))
+				}
 			}
 		}
 	}
